@@ -769,6 +769,62 @@ fn gen_anim6(r: &mut Rng, n: usize, out: &mut dyn Write) {
     }
 }
 
+/// valid but extreme configurations: boundary repeat counts, subnormal/huge durations and delays,
+/// astronomically large times, one ulp either side of every phase boundary (C20)
+fn gen_ext(r: &mut Rng, n: usize, out: &mut dyn Write) {
+    let durs = [1.0f32, 1e-45, 1.1754944e-38, 1e-30, 1e-10, 1e-3, 0.1, 3.0, 1e10, 1e25, 1e30];
+    let delays = [0.0f32, 1e-45, 1e-38, 1e-10, 0.5, 1.0, 1e10, 1e25, 1e30];
+    let reps = ["n", "i", "0", "1", "2", "16777215", "16777216", "16777217", "2147483647", "2147483648", "4294967294", "4294967295"];
+    for i in 0..n {
+        let dur = r.pick(&durs);
+        let delay = r.pick(&delays);
+        let rep = r.pick(&reps);
+        let rev = r.chance(1, 2);
+        // keep the total duration representable (the property's "valid configuration")
+        let cycles: f64 = match rep { "n" => 1.0, "i" => 1.0, k => k.parse::<f64>().unwrap() + 1.0 };
+        if (dur as f64) * cycles + delay as f64 > 1e37 { continue; }
+        let tl = GenTl { shape: "S8".into(), dur: Some(dur), delay: Some(delay), rep: Some(rep.to_string()), rev: Some(rev), easing: None, kfs: vec![], exact: false };
+        let mut ts = times_for(r, &tl, 3);
+        for t in [0.0f32, 1e-45, 1e-38, 1.0, 1e10, 1e20, 1e30, 3.0e38, 3.4028235e38] { ts.push(t); }
+        let total = delay + dur * cycles as f32;
+        for k in -2..=2 { ts.push(nudge(total, k)); ts.push(nudge(delay, k)); ts.push(nudge(delay + dur, k)); ts.push(nudge(delay + dur * 0.5, k)); }
+        writeln!(out, "pos {} {} {} {} {}", b(dur), b(delay), rep, rev as u8, ts.iter().map(|t| b(*t)).collect::<Vec<_>>().join(" ")).unwrap();
+        if i % 4 == 0 {
+            // through the public API: a float property with large but finite values, non-overshooting easings
+            writeln!(out, "reset").unwrap();
+            writeln!(out, "{}", shape_line("S8")).unwrap();
+            let big = [0.0f32, 1e-45, -1e-38, 1.0, -1e10, 1e20, 1e30, -1e30];
+            let e = EASING_NAMES[r.below(26) as usize];
+            let mut kfs = Vec::new();
+            for p in [0.0f32, 0.25, 1.0] {
+                if r.chance(3, 4) {
+                    let mut vals: Vec<Option<String>> = vec![None; 8];
+                    vals[0] = Some(b(r.pick(&big)));
+                    vals[6] = Some(b(r.pick(&big)));
+                    vals[2] = Some(r.below(256).to_string());
+                    vals[7] = Some(val_tok(r, "i64", true));
+                    kfs.push(GenKf { pos: p, easing: None, vals });
+                }
+            }
+            let t2 = GenTl { shape: "S8".into(), dur: Some(dur), delay: Some(delay), rep: Some(rep.to_string()), rev: Some(rev), easing: Some(e.to_string()), kfs, exact: false };
+            writeln!(out, "{}", t2.line(0)).unwrap();
+            writeln!(out, "meta 0").unwrap();
+            writeln!(out, "anim 1 S8 2 0 {} 0 -", vals_line(r, "S8", true).join(" ")).unwrap();
+            for t in ts.iter().take(24) {
+                writeln!(out, "upd 0 {} {}", b(*t), vals_line(r, "S8", true).join(" ")).unwrap();
+            }
+            for dt in [0.0f32, 1e-10, 0.016, 1e5, 1e15, 1e19] {
+                writeln!(out, "adv 1 {}", b(dt)).unwrap();
+            }
+        }
+    }
+    // F-C20b: an overshooting easing on an integer property at the type's bounds (documented panic)
+    writeln!(out, "reset").unwrap();
+    writeln!(out, "{}", shape_line("S8")).unwrap();
+    writeln!(out, "tl 0 S8 {} {} n 0 OutBack 2 0 - - - 0 - - - - - {} - - - 255 - - - - -", b(1.0), b(0.0), b(1.0)).unwrap();
+    writeln!(out, "upd 0 {} 0 0 0 0 0 0 0 0", b(0.7)).unwrap();
+}
+
 pub fn generate(suite: &str, seed: u64, n: usize, out: &mut dyn Write) {
     let mut r = Rng(seed ^ suite.bytes().fold(0u64, |h, c| h.wrapping_mul(131).wrapping_add(c as u64)));
     match suite {
@@ -781,6 +837,7 @@ pub fn generate(suite: &str, seed: u64, n: usize, out: &mut dyn Write) {
         "merged" => gen_merged(&mut r, n, out),
         "anim" => gen_anim(&mut r, n, out),
         "anim6" => gen_anim6(&mut r, n, out),
+        "ext" => gen_ext(&mut r, n, out),
         _ => {
             eprintln!("unknown suite {}", suite);
             std::process::exit(2);
